@@ -72,6 +72,8 @@ func main() {
 		from, _ := strconv.Atoi(os.Args[5])
 		to, _ := strconv.Atoi(os.Args[6])
 		os.Exit(fw.ChildMain(ck, os.Args[3], seed, from, to, os.Args[7]))
+	case "conf":
+		os.Exit(checks.ConfChildMain())
 	case "proc":
 		os.Exit(checks.ProcChildMain())
 	case "replay":
